@@ -23,7 +23,7 @@ RULE = ("seeded histories: 1-3 leaves -> 2-5 shared intermediates (arithmetic, u
         "distinct = event-sequence signature.")
 ASSUMPTIONS = ["MyGrad's backward on an undisturbed graph (verified by C01/C05) provides the reference gradients",
                "tensors mutated in place after L was recorded denote a different value afterwards and are not compared (their upstream is)"]
-TIERS = {"quick": {"cases": 6000, "events": (2, 8)}, "thorough": {"cases": 400000, "events": (3, 16)}}
+TIERS = {"quick": {"cases": 20000, "events": (2, 8)}, "thorough": {"cases": 400000, "events": (3, 16)}}
 FLOORS = {"quick": {"final_calls": 5000, "partially_cleared": 2000, "returned_and_compared": 500},
           "thorough": {"final_calls": 25000, "partially_cleared": 10000, "returned_and_compared": 2500}}
 
